@@ -14,7 +14,7 @@ Direct oracle on the binary: `yq .` keeps document count, node graph (PyYAML
 compose: tags, values, key order, alias sharing), styles, comments, and
 `yq . | yq .` is byte-identical to `yq .`.
 """
-import json, os, re, time
+import json, os, re, shutil, tempfile, time
 from concurrent.futures import ThreadPoolExecutor
 import vlib
 
@@ -610,6 +610,18 @@ def run_yq_list(jobs):
 
 
 def replay(rp):
+    if rp.get("kind") == "files":
+        d = tempfile.mkdtemp(prefix="c05rp_", dir=vlib.WORK)
+        try:
+            ps = []
+            for i, fb in enumerate(rp["files_b64"]):
+                ps.append(os.path.join(d, "f%d.yaml" % i))
+                with open(ps[-1], "wb") as fh:
+                    fh.write(vlib.b64d(fb))
+            rc, out, err = vlib.run_yq(["."] + ps)
+            return rc == 0 and out == vlib.b64d(rp["expected_b64"])
+        finally:
+            shutil.rmtree(d, ignore_errors=True)
     if rp.get("kind") == "identity":
         src = vlib.b64d(rp["input_b64"]).decode("utf-8")
         rc, out, err, rc2, out2, err2 = run_pair(src)
@@ -827,6 +839,58 @@ def run(chk):
                                    "impl_out": o1.decode("utf-8", "replace")[:2000]}, True,
                                   "library premise H_reread fails on a stream yq emitted itself: the output is not a fixed point")
     chk.extra["stream_contract_checks"] = {"H_body_holds": hb, "H_body_outside_domain": hb_out, "H_reread_holds": hr, "H_reread_fails": hr_fail}
+
+    # ---------------- several input files in one run: comment-only / empty / separator-only files at every position ----------------
+    # expected = the single-file outputs in order, a separator in front of a file's output when something was printed before and the
+    # file's leading content does not itself start with a separator (C10's join rule); a file without any document contributes nothing
+    import tempfile
+    special = ["", "# c-only-1\n# c-only-2\n", "# c\n\n# d\n", "---\n", "\n\n", "---\n# after sep\n", "# before\n---\n", "--- # c\n"]
+    normal = [c[0] for c in cases if c[0] and len(c[0]) < 400][len(ADVERSARIAL_STREAMS):] or ["a: 1\n"]
+    combos = []
+    for sp in special:
+        for pos in range(3):
+            fs = [rng.choice(normal), rng.choice(normal)]
+            fs.insert(pos, sp)
+            combos.append(fs)
+    combos += [["a: 1 # c-a\n", "# c-only-1\n# c-only-2\n", "---\n# c-b-head\nb: 2\n"], ["", ""], ["# c\n", "# c\n"], ["---\n", "---\n"], ["", "# c\n"]]
+    for _ in range(400 if thorough else 30):
+        combos.append([rng.choice(special) if rng.random() < 0.4 else rng.choice(normal) for _ in range(rng.choice([2, 3, 4]))])
+    tmpd = tempfile.mkdtemp(prefix="c05mf_", dir=chk.workdir)
+    uniq = list(dict.fromkeys(f for fs in combos for f in fs))
+    paths = {}
+    for i, f in enumerate(uniq):
+        paths[f] = os.path.join(tmpd, "f%d.yaml" % i)
+        with open(paths[f], "wb") as fh:
+            fh.write(f.encode("utf-8"))
+    singles = dict(zip(uniq, run_yq_list([([".", paths[f]], None) for f in uniq])))
+    ndocs = {}
+    for f, r in zip(uniq, vlib.yqh_parallel([{"op": "c05docs", "input_b64": vlib.b64e(f)} for f in uniq])):
+        ndocs[f] = None if (r is None or r.get("err") or r.get("panic")) else len(r.get("docs_b64") or [])
+    multi_out = run_yq_list([(["."] + [paths[f] for f in fs], None) for fs in combos])
+    mf_ok = mf_skip = 0
+    for fs, (rc, out, err) in zip(combos, multi_out):
+        if any(singles[f][0] != 0 or ndocs[f] is None for f in fs):
+            mf_skip += 1
+            continue
+        parts = []
+        for f in fs:
+            if ndocs[f] == 0:
+                continue
+            lead = py_process(f.encode("utf-8"))[0]
+            if parts and not lead.startswith(b"$yqDocSeparator$"):
+                parts.append(b"---\n")
+            parts.append(singles[f][1])
+        want = b"".join(parts) if parts else b"\n"
+        chk.count(("files", tuple(fs)), nontrivial=True)
+        if rc == 0 and out == want:
+            mf_ok += 1
+            continue
+        chk.violation({"kind": "files", "files_b64": [vlib.b64e(f) for f in fs], "files": fs, "expected_b64": vlib.b64e(want), "impl_out": out.decode("utf-8", "replace")[:2000]}, True,
+                      "yq . f1 .. fn is not the single-file outputs joined by separators (rc=%s): want %r got %r" % (rc, want[:200], out[:200]))
+        if len(chk.violations) > 8:
+            break
+    shutil.rmtree(tmpd, ignore_errors=True)
+    chk.extra["multi_file_runs"] = {"agree": mf_ok, "skipped": mf_skip}
 
     if disagreements and not chk.violations:
         d = disagreements[0]
